@@ -25,7 +25,9 @@ EXPLANATION = (
     "processed arguments; (RW-DEFS) optimiser steps keep the defined symbol of each pair, keep `_ret*` "
     "definitions, prepend CSE definitions; (RW-ORDER) ITE/Implies removal precede or->and in every profile and "
     "every head the front end emits is either eliminated by each profile or dispatched by the compiler; "
-    "(FX-SHARED) module-level transformer instances are stateless.  It does NOT decide the behaviour of sympy's "
+    "(FX-SHARED) module-level transformer instances are stateless; (RW-DEFS liveness) a profile step that filters "
+    "the definition list computes liveness backwards and kills the defined symbol before adding the uses of its "
+    "definition - any other step that is not one of the verified rewrites is undecided.  It does NOT decide the behaviour of sympy's "
     "simplify_logic/cse/xreplace, nor semantic preservation under symbol re-definition."
 )
 NOT_DECIDED = "simplify_logic, cse, xreplace (sympy is trusted); merge_expressions under symbol re-definition"
